@@ -24,7 +24,8 @@ RULE = (
     "drawn from a token set containing exact names, '*', prefix, suffix, infix and double globs, every version "
     "operator, and '!'/'!!' blocker prefixes; each string is parsed and applied to every package of the universe "
     "(4 categories x 4 packages x 3 versions x 3 slots x 2 sub-slots x 2 repositories); a second universe has names and "
-    "tokens with '.' and '+' in every glob position next to near-miss names only a regex reading would select. A class is (type of the "
+    "tokens with '.' and '+' in every glob position next to near-miss names only a regex reading would select; a third has single-'*' globs whose literal prefix and "
+    "suffix overlap in too-short values. A class is (type of the "
     "restriction returned, operator present, glob in slot/sub-slot, selects none/some/all); distinct_nontrivial "
     "counts classes observed."
 )
@@ -36,8 +37,8 @@ ASSUMPTIONS = [
     "only names/versions/slots of the stated token sets are covered",
 ]
 BOUNDS = {
-    "quick": "9 category forms (incl. none) x 8 package tokens x 8 version forms x 65 slot/sub-slot forms x 3 repository forms (minus exclusions) x 576 packages; '!'/'!!' prefixes on the slot-less strings; plus the dot/plus universe: 11 category x 9 package tokens x 2 version forms x 33 slot/sub-slot forms x 2 repository forms x 384 packages",
-    "thorough": "15 category forms x 14 package tokens x 11 version forms x 101 slot/sub-slot forms x 3 repository forms (minus exclusions) x 576 packages; '!'/'!!' prefixes on every string; plus the same dot/plus universe as quick",
+    "quick": "9 category forms (incl. none) x 8 package tokens x 8 version forms x 65 slot/sub-slot forms x 3 repository forms (minus exclusions) x 576 packages; '!'/'!!' prefixes on the slot-less strings; plus the dot/plus universe: 11 category x 9 package tokens x 2 version forms x 33 slot/sub-slot forms x 2 repository forms x 384 packages; plus the overlap universe (single-'*' globs a*a ab*ba ab*a a*ba 1.*.1 1*1 1.*1 1*.1 in every glob position vs values a aa aba abba ab / 1 1.1 1.0.1 11): 6 category x 5 package tokens x 2 version forms x 13 slot/sub-slot forms x 2 repository forms x 400 packages",
+    "thorough": "15 category forms x 14 package tokens x 11 version forms x 101 slot/sub-slot forms x 3 repository forms (minus exclusions) x 576 packages; '!'/'!!' prefixes on every string; plus the same dot/plus and overlap universes as quick",
 }
 
 TOKENS_Q = ("a", "ab", "b", "*", "a*", "*b", "a*b", "*a*")
@@ -155,10 +156,32 @@ DP = {
 }
 
 
-def dp_slot_forms():
-    st, ss = DP["slot_tok"], DP["sub_tok"]
+# third universe: single-'*' globs with a literal on both sides whose prefix end equals the suffix start, next to
+# values shorter than prefix+suffix that still start with the prefix and end with the suffix ('a*a' vs 'a',
+# 'ab*ba' vs 'aba', '1.*.1' vs '1.1'); a shell pattern needs the two literals not to overlap
+OV = {
+    "cats": ("a", "aa", "aba", "abba", "ab"),
+    "pkgs": ("a", "aba", "abba", "ab"),
+    "vers": ("1",),
+    "slots": ("1", "1.1", "1.0.1", "11"),
+    "subs": ("a", "aba", "abba", "1.1", "1.0.1"),
+    "repos": ("r1",),
+    "cat_tok": (None, "a*a", "ab*ba", "ab*a", "a*ba", "*"),
+    "pkg_tok": ("a*a", "ab*ba", "a*ba", "aba", "*"),
+    "slot_tok": ("1.*.1", "1*1", "1.*1", "1.1"),
+    "sub_tok": ("a*a", "ab*ba", "1.*.1", "1*.1"),
+    "sub_with_slots": ("*", "1.1"),
+    "ver_forms": (None, ("=", "1")),
+    "repo_forms": (None, "r1"),
+}
+DP["sub_with_slots"] = ("1.0", "*", "1.*")
+SECONDARY = {"dp": DP, "ov": OV}
+
+
+def sec_slot_forms(u):
+    st, ss = u["slot_tok"], u["sub_tok"]
     out = [(None, None)] + [(s, None) for s in st]
-    out += [(s, x) for s in ("1.0", "*", "1.*") for x in ss]
+    out += [(s, x) for s in u["sub_with_slots"] for x in ss]
     return out
 
 
@@ -172,7 +195,8 @@ def universe(uni="main"):
         if uni == "main":
             dims = (CATS, PKGS, VERS, SLOTS, SUBS, REPOS)
         else:
-            dims = (DP["cats"], DP["pkgs"], DP["vers"], DP["slots"], DP["subs"], DP["repos"])
+            u = SECONDARY[uni]
+            dims = (u["cats"], u["pkgs"], u["vers"], u["slots"], u["subs"], u["repos"])
         repos = {r: FakeRepo(repo_id=r) for r in dims[5]}
         out = []
         for c, n, v, s, ss, r in itertools.product(*dims):
@@ -287,21 +311,23 @@ def tasks(tier):
         for pi in range(len(TOKENS[tier])):
             for vi in range(len(VER_FORMS[tier])):
                 out.append((tier, ci, pi, vi))
-    for ci in range(len(DP["cat_tok"])):
-        for pi in range(len(DP["pkg_tok"])):
-            out.append((tier, "dp", ci, pi))
+    for name, u in SECONDARY.items():
+        for ci in range(len(u["cat_tok"])):
+            for pi in range(len(u["pkg_tok"])):
+                out.append((tier, name, ci, pi))
     return out
 
 
 def task_universe(task):
-    return "dp" if task[1] == "dp" else "main"
+    return task[1] if task[1] in SECONDARY else "main"
 
 
 def patterns_of(task):
-    if task[1] == "dp":
-        tier, _, ci, pi = task
-        for vf, (s, ss), repo in itertools.product(DP["ver_forms"], dp_slot_forms(), DP["repo_forms"]):
-            p = {"cat": DP["cat_tok"][ci], "pkg": DP["pkg_tok"][pi], "op": vf[0] if vf else None, "ver": vf[1] if vf else None, "slot": s, "sub": ss, "repo": repo}
+    if task[1] in SECONDARY:
+        tier, name, ci, pi = task
+        u = SECONDARY[name]
+        for vf, (s, ss), repo in itertools.product(u["ver_forms"], sec_slot_forms(u), u["repo_forms"]):
+            p = {"cat": u["cat_tok"][ci], "pkg": u["pkg_tok"][pi], "op": vf[0] if vf else None, "ver": vf[1] if vf else None, "slot": s, "sub": ss, "repo": repo}
             if excluded(p):
                 continue
             yield p
@@ -350,7 +376,7 @@ def work(task):
             continue
         r, msg = check_parse(p)
         evals += 1
-        route = ("op" if p["op"] else "noop") + ("+slotglob" if slot_globbed(p) else "") + ("+dotplus" if task[1] == "dp" else "")
+        route = ("op" if p["op"] else "noop") + ("+slotglob" if slot_globbed(p) else "") + ({"dp": "+dotplus", "ov": "+overlap"}.get(task[1], ""))
         if msg:
             record({"q": text, "pat": p, "pkg": None, "msg": msg})
             k = ("blocker-accepted" if p.get("bang") else "rejected") + "|" + route
